@@ -29,14 +29,20 @@ pub struct GenCfg {
     pub extreme_cels: bool,
     /// occasionally draw dimensions / counts beyond 255 and 65535 (tilesets, tiles, stored maps, canvases)
     pub big: bool,
+    /// tilemap cels only at tile-aligned offsets (C08's quantifier); otherwise half of them at arbitrary offsets
+    pub aligned_tilemaps: bool,
+    /// sometimes draw all pixels from 2-3 flat colours (runs of identical pixels)
+    pub flat: bool,
+    /// allow the background flag on a tilemap layer 0 (C08's relation check only)
+    pub bg_tilemap: bool,
 }
 
 impl GenCfg {
     pub fn small() -> GenCfg {
-        GenCfg { max_w: 24, max_h: 24, fmt: None, max_layers: 8, max_frames: 5, max_cel: 20, tilemaps: true, groups: true, links: true, attrs: true, extremes: true, blend_modes: true, cel_density: 5, background: true, extreme_cels: false, big: false }
+        GenCfg { max_w: 24, max_h: 24, fmt: None, max_layers: 8, max_frames: 5, max_cel: 20, tilemaps: true, groups: true, links: true, attrs: true, extremes: true, blend_modes: true, cel_density: 5, background: true, extreme_cels: false, big: false, aligned_tilemaps: true, flat: false, bg_tilemap: false }
     }
     pub fn tiny() -> GenCfg {
-        GenCfg { max_w: 6, max_h: 6, fmt: None, max_layers: 4, max_frames: 3, max_cel: 6, tilemaps: true, groups: true, links: true, attrs: true, extremes: false, blend_modes: true, cel_density: 5, background: true, extreme_cels: false, big: false }
+        GenCfg { max_w: 6, max_h: 6, fmt: None, max_layers: 4, max_frames: 3, max_cel: 6, tilemaps: true, groups: true, links: true, attrs: true, extremes: false, blend_modes: true, cel_density: 5, background: true, extreme_cels: false, big: false, aligned_tilemaps: true, flat: false, bg_tilemap: false }
     }
 }
 
@@ -93,6 +99,24 @@ pub fn gen_offset(rng: &mut Rng, canvas: u16, size: u16) -> i16 {
         _ => 0,
     };
     v.clamp(-32768, 32767) as i16
+}
+
+/// pixel bytes drawn from 2-3 flat colours (long runs of identical pixels, identical colours across cels)
+pub fn gen_flat_pixels(rng: &mut Rng, sp: &Sprite, n: usize) -> Vec<u8> {
+    let bpp = sp.fmt.bpp();
+    // the colour set depends only on the sprite (so different cels share colours)
+    let mut crng = Rng::new(sp.width as u64 * 65_537 + sp.height as u64 * 257 + sp.transparent_index as u64);
+    let k = 2 + crng.below(2) as usize;
+    let colours: Vec<Vec<u8>> = (0..k).map(|_| { let mut one = gen_pixels(&mut crng, sp, 1); if bpp == 4 && one[3] == 0 { one[3] = 255 } one }).collect();
+    let mut out = Vec::with_capacity(n * bpp);
+    let mut cur = rng.usize_below(k);
+    for _ in 0..n {
+        if rng.chance(1, 6) {
+            cur = rng.usize_below(k);
+        }
+        out.extend_from_slice(&colours[cur]);
+    }
+    out
 }
 
 /// pixel bytes valid for the sprite's format
@@ -237,10 +261,13 @@ pub fn gen_tileset(rng: &mut Rng, sp: &Sprite, id: u32, cfg: &GenCfg) -> Tileset
 pub fn gen_sprite(rng: &mut Rng, cfg: &GenCfg) -> (Sprite, PaletteProgram) {
     let fmt = cfg.fmt.unwrap_or_else(|| *rng.pick(&[Fmt::Rgba, Fmt::Rgba, Fmt::Gray, Fmt::Indexed, Fmt::Indexed]));
     let (width, height) = if cfg.big && rng.chance(1, 25) {
+        // one dimension beyond 256, or (rarer) beyond the i16 range
+        let long = if rng.chance(1, 4) { *rng.pick(&[32_767u16, 32_768, 33_000, 40_000, 65_535]) } else { rng.range(257, 400) as u16 };
+        let short = if long > 1000 { 1 } else { rng.range(1, 3) as u16 };
         if rng.chance(1, 2) {
-            (rng.range(257, 400) as u16, rng.range(1, 3) as u16)
+            (long, short)
         } else {
-            (rng.range(1, 3) as u16, rng.range(257, 400) as u16)
+            (short, long)
         }
     } else {
         (rng.range(1, cfg.max_w as i64) as u16, rng.range(1, cfg.max_h as i64) as u16)
@@ -300,7 +327,7 @@ pub fn gen_sprite(rng: &mut Rng, cfg: &GenCfg) -> (Sprite, PaletteProgram) {
         }
         let mut blend = if cfg.blend_modes { rng.range(0, 18) as u16 } else { 0 };
         let mut opacity = rng.opacity();
-        if cfg.background && i == 0 && kind == LayerKind::Image && rng.chance(1, 4) {
+        if cfg.background && i == 0 && (kind == LayerKind::Image || (cfg.bg_tilemap && matches!(kind, LayerKind::Tilemap(_)))) && rng.chance(1, 4) {
             flags |= LF_BACKGROUND;
             blend = 0;
             opacity = 255;
@@ -311,6 +338,7 @@ pub fn gen_sprite(rng: &mut Rng, cfg: &GenCfg) -> (Sprite, PaletteProgram) {
         prev_level = level;
     }
     // cels: raw / tilemap first
+    let flat = cfg.flat && rng.chance(1, 4);
     for f in 0..nframes {
         for l in 0..nlayers {
             if !rng.chance(cfg.cel_density, 8) {
@@ -330,7 +358,7 @@ pub fn gen_sprite(rng: &mut Rng, cfg: &GenCfg) -> (Sprite, PaletteProgram) {
                     } else {
                         (rng.range(1, cfg.max_cel as i64) as u16, rng.range(1, cfg.max_cel as i64) as u16)
                     };
-                    let pixels = gen_pixels(rng, &sp, w as usize * h as usize);
+                    let pixels = if flat { gen_flat_pixels(rng, &sp, w as usize * h as usize) } else { gen_pixels(rng, &sp, w as usize * h as usize) };
                     let c = CelM { x: gen_offset(rng, width, w), y: gen_offset(rng, height, h), opacity: rng.opacity(), content: CelContentM::Image { w, h, pixels }, ud: gen_opt_ud(rng, cfg) };
                     sp.cels.insert((f as u16, l as u16), c);
                 }
@@ -370,6 +398,12 @@ pub fn gen_sprite(rng: &mut Rng, cfg: &GenCfg) -> (Sprite, PaletteProgram) {
                     let ky = rng.range(-(h as i64) - 1, (height as i64 / ts.th as i64) + 1);
                     let x = (kx * ts.tw as i64).clamp(-32768 / ts.tw as i64 * ts.tw as i64, 32767 / ts.tw as i64 * ts.tw as i64) as i16;
                     let y = (ky * ts.th as i64).clamp(-32768 / ts.th as i64 * ts.th as i64, 32767 / ts.th as i64 * ts.th as i64) as i16;
+                    let (x, y) = if !cfg.aligned_tilemaps && rng.chance(1, 2) {
+                        // arbitrary (not tile-aligned) offsets: partly cut tiles at every canvas edge
+                        (gen_offset(rng, width, (w as u32 * ts.tw as u32).min(65_535) as u16), gen_offset(rng, height, (h as u32 * ts.th as u32).min(65_535) as u16))
+                    } else {
+                        (x, y)
+                    };
                     let c = CelM { x, y, opacity: rng.opacity(), content: CelContentM::Tilemap { w, h, tiles, masks }, ud: gen_opt_ud(rng, cfg) };
                     sp.cels.insert((f as u16, l as u16), c);
                 }
